@@ -1191,6 +1191,7 @@ func (p *publishAsyncSession) publishLoop() error {
 			})
 		}
 
+		verifGateStop("api.publish_async.published", req.CorrelationId, nil)
 		// Increment in-flight count if we're expecting an ack.
 		if req.AckPolicy != client.AckPolicy_NONE {
 			p.mu.Lock()
